@@ -190,7 +190,7 @@ Definition push_sel (am : bool) (t : txn) (ptree otree ntree : tree)
       | Some c => if tree_eqb c ours then t else set_tmp t (Some ours) ours
       | None => set_tmp t (Some ours) ours
       end in
-    match apply3way otree (t_tmp_content t1) theirs with
+    match apply3way (t_wt t1) otree (t_tmp_content t1) theirs with
     | Some merged => inl (set_tmp t1 (Some merged) merged, merged, PSNormal)
     | None =>
         let t1 := set_tmp t1 None (t_tmp_content t1) in
@@ -307,7 +307,7 @@ Lemma push_sel_eq : forall am t ptree otree ntree,
       let ours := if swap then ptree else ntree in
       let theirs := if swap then ntree else ptree in
       let t1 := tmp_prep t ours in
-      match apply3way otree (t_tmp_content t1) theirs with
+      match apply3way (t_wt t1) otree (t_tmp_content t1) theirs with
       | Some merged => inl (set_tmp t1 (Some merged) merged, merged, PSNormal)
       | None =>
           let t1 := set_tmp t1 None (t_tmp_content t1) in
@@ -438,8 +438,8 @@ Proof.
   set (theirs := if swap then ntree else ptree) in *.
   specialize (Hswap ours theirs eq_refl eq_refl).
   set (t1 := tmp_prep t ours) in *.
-  destruct (apply3way otree ours theirs) as [merged|] eqn:Ha.
-  { inversion H; subst. rewrite <- Hswap. apply apply_is_merge. exact Ha. }
+  destruct (apply3way _ otree ours theirs) as [merged|] eqn:Ha.
+  { inversion H; subst. rewrite <- Hswap. apply (apply_is_merge _ _ _ _ _ Ha). }
   repeat break_in H; inversion H; subst; try congruence.
 Qed.
 
